@@ -132,6 +132,18 @@ func (r *Report) Add(f Finding) {
 	r.findings = append(r.findings, f)
 }
 
+// Has reports whether a finding with the key was recorded for the checked property.
+func (r *Report) Has(key string) bool {
+	r.mu.Lock()
+	defer r.mu.Unlock()
+	for _, f := range r.findings {
+		if f.Key == key {
+			return true
+		}
+	}
+	return false
+}
+
 // Count returns the number of findings for the checked property.
 func (r *Report) Count() int {
 	r.mu.Lock()
